@@ -24,7 +24,10 @@ IMPORTS = ('From Coq Require Import List ZArith QArith String.\n'
 
 
 def _delta(seq):
-    return call(lambda: fnum(SP(seq).get_delta()))
+    def f():
+        o, held = SPx(seq)
+        return held, fnum(o.get_delta())
+    return call(f)
 
 
 def sequences(ctx, nmax_q=8, nmax_t=10, lmax_t=400):
@@ -45,13 +48,18 @@ def build(ctx):
     res = pmap(_delta, seqs)
     cases = []
     ctx.direct_failures = []
-    for s, (st, v) in zip(seqs, res):
+    for s0, (st, v) in zip(seqs, res):
+        s = s0
+        if st == 'ok':
+            s, v = v          # the sequence the object actually holds (a shuffled child holds another one than asked for)
         d = {'sequence': s, 'get_delta': [st, v]}
+        if s != s0:
+            d['object'] = 'get_shuffled_sequence() child of ' + s0
         if st != 'ok' or not isinstance(v, (int, float)):
             ctx.direct_failures.append(d)
             continue
         nt = len(s) >= 5 and any(c in 'KRDE' for c in s)
-        cases.append(Case('(%s, %s)' % (cstr(s), cq(v)), d, key=s, nontrivial=nt))
+        cases.append(Case('(%s, %s)' % (cstr(s), cq(v)), d, key=(s, s != s0), nontrivial=nt))
     return [CaseSet('C02', IMPORTS, 'string * Q', 'check_c02', cases, shard=700)]
 
 
